@@ -2204,7 +2204,10 @@ func (cs Conditions) inlineTagFilter(tags map[string]TagDetails) ConditionsSet {
 		}
 		origLen := len(csNew)
 		for range tagConditionsSet {
-			csNew = append(csNew, csNew[:origLen]...)
+			// every alternative is extended on its own below: no shared backing arrays
+			for _, conds := range csNew[:origLen] {
+				csNew = append(csNew, append(Conditions(nil), conds...))
+			}
 		}
 		a := c.Accept & certain
 		for i := range csNew {
